@@ -13,12 +13,12 @@ FUNCTIONS = [
 STUBS = ["zlib.compressobj / decompressobj -> reference stateful codec model (props/zmodel.py): worst case of context take-over (message k of a context decodes only after 0..k-1 of the same context), window sizes checked, sync-flush tail 00 00 ff ff, max_length semantics",
          "transport -> recording objects for a real client and a real server; reactor -> twisted Clock; frame mask keys fixed", "loggers -> empty bodies"]
 ASSUMPTIONS = [
-    "losslessness of the real zlib/bz2/brotli/snappy streams (C libraries, input-length-dependent loops) is outside solver reach: decided here is everything around them (which (de)compressor is used, reset vs reuse, window sizes per direction, tail strip/re-append, RSV1 rules, negotiation); bzip2/snappy/brotli parameter classes are not driven",
+    "losslessness of the real zlib/bz2/brotli/snappy streams (C libraries, input-length-dependent loops) is outside solver reach: decided here is everything around them (which (de)compressor is used, reset vs reuse, window sizes per direction, tail strip/re-append, RSV1 rules, negotiation); permessage-bzip2 is driven end to end over a one-stream-per-message codec model (6 negotiation settings); snappy/brotli classes (their C modules are not installed) are not driven",
     "window-size and memory-level values are case-split over {0, 8, 9, 12, 15, 16} resp. {None, 1, 9, 10} (in- and out-of-range), booleans free",
 ]
 BOUNDS = {"quick": "offer x accept lattice: 2^3 x 6 offer parameters x 2 x 6 x 3 x 7 x 4 accept parameters, response x response-accept lattice likewise; end-to-end pairs: 12 negotiation settings x 3 messages per direction x {whole, fragmented, streaming, prepared, do-not-compress} with free payload octets; 14 malformed extension responses; compressed control frame / RSV1 on continuation",
           "thorough": "all window sizes 8..16, 4 messages per direction"}
-EXPECT_COVERS = ["lattice:accept-ok", "lattice:accept-raises", "lattice:offer-raises", "pair:delivered", "pair:uncompressed", "client:refuses", "rx:rsv-violation"]
+EXPECT_COVERS = ["pair:bzip2", "lattice:accept-ok", "lattice:accept-raises", "lattice:offer-raises", "pair:delivered", "pair:uncompressed", "client:refuses", "rx:rsv-violation"]
 BUDGET = {"quick": dict(wall_s=300, max_paths=60000, diff_samples=3), "thorough": dict(wall_s=2400, max_paths=600000)}
 
 WB = [0, 8, 9, 12, 15, 16]
@@ -227,6 +227,155 @@ def pair(sx, setting, api, nmsg):
     return [setting, api]
 
 
+class BZModel:
+    """stands in for the `bz2` module inside compress_bzip2.py: one stream per compressor object; a compressor cannot be used after
+    flush(); a decompressor raises EOFError when fed after the end of its stream and OSError on foreign data"""
+
+    def __init__(self):
+        self.levels = []          # compress levels of the compressor objects created, in order
+
+    def BZ2Compressor(self, level=9):
+        if not isinstance(level, int) or not (1 <= level <= 9):
+            raise ValueError("compresslevel must be between 1 and 9")
+        self.levels.append(level)
+        return _BZC(level)
+
+    def BZ2Decompressor(self):
+        return _BZD()
+
+
+class _BZC:
+    def __init__(self, level):
+        self.level, self.buf, self.done = level, b"", False
+
+    def compress(self, data):
+        if self.done:
+            raise ValueError("Compressor has been flushed")
+        self.buf = self.buf + data
+        return b""
+
+    def flush(self):
+        if self.done:
+            raise ValueError("Repeated call to flush()")
+        self.done = True
+        return bytes([0x42, 0x5A, self.level, len(self.buf)]) + self.buf + b"\x17\x72"
+
+
+class _BZD:
+    def __init__(self):
+        self.pending, self.left, self.state = b"", 0, "hdr"
+
+    def decompress(self, data):
+        if self.state == "eof":
+            raise EOFError("End of stream already reached")
+        buf = self.pending + data
+        out = b""
+        pos = 0
+        while pos < len(buf) and self.state != "eof":
+            if self.state == "hdr":
+                if len(buf) - pos < 4:
+                    break
+                if buf[pos] != 0x42 or buf[pos + 1] != 0x5A:
+                    raise OSError("Invalid data stream")
+                self.left = buf[pos + 3]
+                pos += 4
+                self.state = "body"
+            elif self.state == "body":
+                take = min(self.left, len(buf) - pos)
+                out = out + buf[pos:pos + take]
+                pos += take
+                self.left -= take
+                if self.left == 0:
+                    self.state = "t0"
+            elif self.state == "t0":
+                if buf[pos] != 0x17:
+                    raise OSError("Invalid data stream")
+                pos += 1
+                self.state = "t1"
+            elif self.state == "t1":
+                if buf[pos] != 0x72:
+                    raise OSError("Invalid data stream")
+                pos += 1
+                self.state = "eof"
+        self.pending = buf[pos:] if self.state != "eof" else b""
+        return out
+
+
+BZ_SETTINGS = [
+    # offer(accept_max_compress_level, request_max_compress_level), server accept(request_max, compress_level), client accept(compress_level)
+    dict(o=(True, 0), s=(0, None), c=None),
+    dict(o=(True, 5), s=(3, None), c=None),
+    dict(o=(False, 9), s=(0, 4), c=7),
+    dict(o=(True, 2), s=(6, 1), c=6),
+    dict(o=(False, 0), s=(0, 9), c=1),
+    dict(o=(True, 1), s=(1, None), c=1),
+]
+
+
+def pair_bzip2(sx, setting, api, nmsg):
+    """permessage-bzip2 negotiated by a real client and a real server: levels respect what each side asked for, every message arrives identical"""
+    import autobahn.websocket.compress_bzip2 as cb
+    bz = BZModel()
+    cb.bz2 = bz
+    kind = BZ_SETTINGS[setting]
+
+    def server_accept(offers):
+        for o in offers:
+            if isinstance(o, cb.PerMessageBzip2Offer):
+                return cb.PerMessageBzip2OfferAccept(o, request_max_compress_level=kind["s"][0] if o.accept_max_compress_level else 0, compress_level=kind["s"][1])
+        return None
+
+    def client_accept(resp):
+        if isinstance(resp, cb.PerMessageBzip2Response):
+            return cb.PerMessageBzip2ResponseAccept(resp, compress_level=kind["c"])
+        return None
+    offers = [cb.PerMessageBzip2Offer(*kind["o"])]
+    clock, trace, s, c, rnd = wslib.open_pair(sx, server_opts=dict(perMessageCompressionAccept=server_accept),
+                                              client_opts=dict(perMessageCompressionOffers=offers, perMessageCompressionAccept=client_accept))
+    info = dict(setting=setting, api=api, ext="bzip2")
+    ok = s.p.state == s.p.STATE_OPEN and c.p.state == c.p.STATE_OPEN and s.p._perMessageCompress is not None and c.p._perMessageCompress is not None
+    sx.check(ok, "handshake-with-compression-completes", info=info)
+    if not ok:
+        return ["no-pmce"]
+    sx.check(type(s.p._perMessageCompress).__name__ == "PerMessageBzip2" and type(c.p._perMessageCompress).__name__ == "PerMessageBzip2", "negotiated-extension-is-the-offered-one", info=info)
+    s.t.take(); c.t.take(); del trace[:]
+    # what each side may use at most: the other side's request (0 = no request)
+    srv_cap = kind["o"][1] or 9
+    cli_cap = (kind["s"][0] if kind["o"][0] else 0) or 9
+    for snd, rcv, cap in ((c, s, cli_cap), (s, c, srv_cap)):
+        n0 = len(bz.levels)
+        sent = []
+        for k in range(nmsg):
+            pl = sx.bytes("m%s%d" % (snd.who, k), 2) + bytes([97 + k]) * k
+            if api == "message":
+                snd.p.sendMessage(pl, isBinary=True)
+            elif api == "fragmented":
+                snd.p.sendMessage(pl, isBinary=True, fragmentSize=3)
+            elif api == "streaming":
+                snd.p.beginMessage(isBinary=True)
+                snd.p.sendMessageFrame(pl[:1])
+                snd.p.sendMessageFrame(pl[1:])
+                snd.p.endMessage()
+            sent.append(pl)
+        wslib.drain(clock)
+        for lv in bz.levels[n0:]:
+            sx.check(lv <= cap, "compress-level<=maximum-requested-by-the-peer", info=dict(info, level=lv, cap=cap, sender=snd.who))
+        wire = wslib.concat(snd.t.take())
+        try:
+            wslib.deliver(rcv, wire, (3, len(wire) // 2))
+        except Exception as e:  # noqa
+            sx.fail("exception-escapes-receiver", info=dict(info, exc=repr(e)))
+            return ["exc"]
+        got = trace.of(rcv.who, "msg")
+        sx.check(len(got) == nmsg, "every-message-delivered-once", info=dict(info, got=len(got)))
+        for g, pl in zip(got, sent):
+            sx.check(g[2] == pl, "message-identical-after-compression", info=info)
+        sx.check(rcv.t.closed is None, "connection-stays-open", info=info)
+        del trace[:]
+    sx.cover("pair:bzip2")
+    return [setting, api]
+
+
 def refused_send(sx, setting):
     """a send refused for exceeding maxMessagePayloadSize must not desynchronise the compression context for later messages"""
     import autobahn.websocket.compress_deflate as cd
@@ -362,6 +511,9 @@ def units(tier):
     for si in range(len(SETTINGS)):
         for api in ("message", "fragmented", "streaming", "prepared", "donotcompress", "mixed"):
             U.append(("pair/%d/%s" % (si, api), "pair", dict(setting=si, api=api, nmsg=3 if q else 4), dict(weight=3)))
+    for si in range(len(BZ_SETTINGS)):
+        for api in ("message", "fragmented", "streaming"):
+            U.append(("bzip2/%d/%s" % (si, api), "pair_bzip2", dict(setting=si, api=api, nmsg=2 if q else 3), dict(weight=3)))
     for si in (0, 1, 2, 3):
         U.append(("refusedsend/%d" % si, "refused_send", dict(setting=si)))
     for i in range(len(BAD_RESPONSES)):
